@@ -77,7 +77,7 @@ Print Assumptions C09_recorded_case_follows_the_label.
 Theorem C09_consumer_receives_the_recorded_case :
   forall P st, reachable P st ->
     forall a b i k kw, st_trace st = a ++ OStart i k kw :: b ->
-      exists n val ad, real_index n = i /\ gen_kwargs P n val ad = Some kw /\ forall p v, val p = Some v -> prov P b p v.
+      exists n val ad, real_index n = i /\ gen_kwargs P n val ad = Some kw /\ (forall p v, val p = Some v -> prov P b p v) /\ ad_ok P b n ad.
 Proof. exact arguments_come_from_the_declared_inputs_all_programs. Qed.
 Print Assumptions C09_consumer_receives_the_recorded_case.
 
